@@ -87,4 +87,11 @@ Proof.
   rewrite <- (run_opsF_covered RT tab_element tab_enum check_fn LATEST root_attrs fmt l COV). exact E.
 Qed.
 
+Theorem H12_reachableF_real l w : run_opsF' l empty_world = Val w -> H12r w.
+Proof.
+  intros E.
+  exact (H12_reachableF RT tab_element tab_attr tab_enum check_fn LATEST root_attrs tables_ok12_real
+           NamesOK_real EnumsOK_real AttrsOK_real RootOK (tkr_real check_fn) root_plain_real fmt l _ _ (H12_empty _ _ _ _) E).
+Qed.
+
 End Real.
